@@ -353,7 +353,9 @@ func init() {
 		// k-aggregations over a group with a NaN member: every arrangement of the values
 		// over the series (which member reaches the heap when), every k up to the group size
 		runCases(c, "C04", func(emit func(*core.Case)) {
-			for _, vals := range [][]float64{{5, math.NaN(), 1, 2}, {-1, math.NaN(), -5, 2}, {4, math.NaN(), 1, 2, 3}, {math.Inf(1), math.NaN(), math.Inf(-1), 0}} {
+			for _, vals := range [][]float64{{5, math.NaN(), 1, 2}, {-1, math.NaN(), -5, 2}, {4, math.NaN(), 1, 2, 3}, {math.Inf(1), math.NaN(), math.Inf(-1), 0},
+				// squares that overflow
+				{1e200, 2, -1e200, 7}} {
 				for _, pm := range permutations(len(vals)) {
 					var data []core.SeriesSpec
 					for i, j := range pm {
@@ -369,6 +371,11 @@ func init() {
 					// the order-sensitive reductions over the same arrangements
 					for _, q := range []string{`quantile(0.5, a)`, `quantile(0.9, a)`, `quantile(0, a)`, `quantile(1, a)`, `quantile by (l) (0.25, a)`, `min(a)`, `max(a)`, `min by (l) (a)`, `max by (l) (a)`,
 						`sum(a)`, `avg(a)`, `avg by (l) (a)`, `stddev(a)`, `stdvar by (l) (a)`, `count(a)`, `group(a)`} {
+						if vals[0] == 1e200 && (strings.HasPrefix(q, "sum") || strings.HasPrefix(q, "avg")) {
+							// 1e200 + 2 - 1e200 + 7 depends on the order of the additions in any
+							// engine: ill-conditioned sums are not part of the value alphabet
+							continue
+						}
 						for _, pr := range []int{2, 8} {
 							emit(&core.Case{Q: q, Data: data, W: core.Range(0, 30000, 3), O: core.Opts{Optimizers: "none", Procs: pr}, Note: "NaN arrangement"})
 						}
